@@ -12,7 +12,7 @@ import tempfile
 import urllib.parse
 from collections import defaultdict, deque
 from collections.abc import Callable, Sequence, Set
-from dataclasses import dataclass
+from dataclasses import dataclass, replace
 from functools import lru_cache
 from importlib.resources import files
 from pathlib import Path
@@ -1619,8 +1619,13 @@ class Wtp:
                                 name, None
                             )
                             if template_page is not None:
-                                template_page.body = self._template_to_body(
-                                    name, template_page.body
+                                # get_page() memoizes the Page object: work on
+                                # a copy, not on the cached page itself
+                                template_page = replace(
+                                    template_page,
+                                    body=self._template_to_body(
+                                        name, template_page.body
+                                    ),
                                 )
                         if (
                             template_page is not None
